@@ -24,6 +24,12 @@
 //!   4 c m f            fate of the send just issued: 0 started | 1 dropped (Drop) | 2 dropped (queue
 //!                      cannot hold it) | 3 queued   (3 iff the queue grew by one packet)
 //! a trailing 13 if `run()` returned an error.
+//!
+//! probe script (nl = 0): `seed 0 brk br lat jit  ntx (len tx)*  nw (hi lo)*` -- no simulation: the public
+//!   `ChannelMetrics::calculate_duration(&msg, &mut dyn RngCore)` is called for every listed length with a generator
+//!   that returns the word hi * 2^32 + lo for every draw; output `7 n (len calculate_busy)*` and, per length and word,
+//!   `5 len hi lo j` with j = duration - latency - calculate_busy (saturating at 0; 2^40 + x if the duration is x
+//!   short of latency + calculate_busy).
 use des::net::channel::ChannelProbe;
 use des::net::message::MessageBody;
 use des::prelude::*;
@@ -230,9 +236,55 @@ fn metrics_of(brk: u64, br: u64, lat: u64, jit: u64, pol: u64, lim: u64) -> Chan
     }
 }
 
+/// a generator whose every draw is one fixed word
+struct Fixed(u64);
+impl rand::RngCore for Fixed {
+    fn next_u32(&mut self) -> u32 {
+        (self.0 >> 32) as u32
+    }
+    fn next_u64(&mut self) -> u64 {
+        self.0
+    }
+    fn fill_bytes(&mut self, dst: &mut [u8]) {
+        let b = self.0.to_le_bytes();
+        for (i, d) in dst.iter_mut().enumerate() {
+            *d = b[i % 8];
+        }
+    }
+}
+
+fn probe_line(nums: &[u64]) -> Vec<u64> {
+    let mut cur = Cur::new(&nums[2..]);
+    let (brk, br, lat, jit) = (cur.next(), cur.next(), cur.next(), cur.next());
+    let metrics = metrics_of(brk, br, lat, jit, 0, 0);
+    let tb = cur.take_lp();
+    let wb = cur.take_lp();
+    let lens: Vec<u64> = tb.chunks(2).filter(|p| p.len() == 2).map(|p| p[0]).collect();
+    let words: Vec<(u64, u64)> = wb.chunks(2).filter(|p| p.len() == 2).map(|p| (p[0], p[1])).collect();
+    let mut out: Vec<u64> = vec![7, lens.len() as u64];
+    for l in &lens {
+        out.push(*l);
+        out.push(metrics.calculate_busy(&data_msg(0, 0, *l)).as_nanos() as u64);
+    }
+    for l in &lens {
+        let msg = data_msg(0, 0, *l);
+        let base = (metrics.latency + metrics.calculate_busy(&msg)).as_nanos() as u64;
+        for (hi, lo) in &words {
+            let mut rng = Fixed((hi << 32).wrapping_add(*lo));
+            let d = metrics.calculate_duration(&msg, &mut rng).as_nanos() as u64;
+            let j = if d >= base { d - base } else { (1 << 40) + (base - d) };
+            out.extend([5, *l, *hi, *lo, j]);
+        }
+    }
+    out
+}
+
 fn run_line(nums: &[u64]) -> Vec<u64> {
     if nums.len() < 2 {
         return vec![8];
+    }
+    if nums[1] == 0 {
+        return probe_line(nums);
     }
     let mut cur = Cur::new(nums);
     let seed = cur.next();
